@@ -112,6 +112,24 @@ var genBytes = func() []byte {
 
 var infBytes = make([]byte, 64)
 
+var g2BaseTok = hx.Hex(bn.GetG2Base().Marshal())
+
+// g2Of: `00` is the one-byte encoding of infinity; otherwise the 128-byte form.
+func g2Of(tok string) *bn.G2 {
+	b, err := hx.UnHex(tok)
+	if err != nil {
+		return nil
+	}
+	if len(b) == 1 && b[0] == 0 {
+		return new(bn.G2).ScalarBaseMult(big.NewInt(0))
+	}
+	g := new(bn.G2)
+	if _, e := g.Unmarshal(b); e != nil {
+		return nil
+	}
+	return g
+}
+
 func hasDup(xs []*big.Int) bool {
 	for i := range xs {
 		for j := 0; j < i; j++ {
@@ -306,6 +324,47 @@ func execOp(line string) string {
 		}
 		s := groupsig.RecoverGroupSignature(m, k)
 		return "ok " + sigTok(s)
+	case "g2add", "g2mul":
+		if len(w) != 3 {
+			return "bad-op"
+		}
+		a := g2Of(w[1])
+		if a == nil {
+			return "bad-op"
+		}
+		if w[0] == "g2add" {
+			b := g2Of(w[2])
+			if b == nil {
+				return "bad-op"
+			}
+			return hx.Hex(new(bn.G2).Add(a, b).Marshal())
+		}
+		k, ok := tokNat(w[2])
+		if !ok {
+			return "bad-op"
+		}
+		return hx.Hex(new(bn.G2).ScalarMult(a, k).Marshal())
+	case "aggpk":
+		// aggpk <g2base> <k1> ... : AggregatePubkeys of GeneratePubkey(k_i)
+		if len(w) < 2 {
+			return "bad-op"
+		}
+		if w[1] != g2BaseTok {
+			return "base-mismatch"
+		}
+		pubs := make([]groupsig.Pubkey, 0)
+		for _, t := range w[2:] {
+			c, ok := tokNat(t)
+			if !ok {
+				return "bad-op"
+			}
+			pubs = append(pubs, *groupsig.GeneratePubkey(secOf(c)))
+		}
+		pk := groupsig.AggregatePubkeys(pubs)
+		if pk == nil {
+			return "nil"
+		}
+		return "ok " + hx.Hex(pk.Serialize())
 	case "gen":
 		// gen <k> <js|-> <id> <sig> ... : feed model.GroupSignGenerator in this order
 		if len(w) < 3 || (len(w)-3)%2 != 0 {
@@ -433,20 +492,26 @@ func guardP(f func() string) string {
 }
 
 func execDkg(w []string, obs *dkgObs) string {
-	if len(w) < 8 {
+	if len(w) < 9 {
 		return "bad-op"
 	}
 	msg, e1 := hx.UnHex(w[1])
 	gh, e2 := hx.UnHex(w[2])
 	hm, e3 := hx.UnHex(w[3])
-	k, o1 := tokDec(w[4])
-	n, o2 := tokDec(w[5])
-	m, o3 := tokDec(w[6])
-	_, o4 := tokDecs(w[7])
+	if g2Of(w[4]) == nil {
+		return "bad-op"
+	}
+	k, o1 := tokDec(w[5])
+	n, o2 := tokDec(w[6])
+	m, o3 := tokDec(w[7])
+	_, o4 := tokDecs(w[8])
 	if e1 != nil || e2 != nil || e3 != nil || !o1 || !o2 || !o3 || !o4 || k == 0 || n == 0 {
 		return "bad-op"
 	}
-	rest := w[8:]
+	if w[4] != g2BaseTok {
+		return "base-mismatch"
+	}
+	rest := w[9:]
 	if len(rest) != n+n+n*k+m {
 		return "bad-op"
 	}
@@ -548,7 +613,7 @@ func execDkg(w []string, obs *dkgObs) string {
 			obs.GroupVerify = gen.VerifyGroupSign(d.gpk[0], msg) && groupsig.VerifySig(d.gpk[0], msg, gs)
 		}
 	}
-	return strings.Join(msks, ",") + " " + secTok(gsk) + " " + first + " " + allS + " " + sigTok(&direct)
+	return strings.Join(msks, ",") + " " + secTok(gsk) + " " + first + " " + allS + " " + sigTok(&direct) + " " + hx.Hex(d.gpk[0].Serialize())
 }
 
 // ---------------------------------------------------------------------------
@@ -900,6 +965,41 @@ func (g *gen) genRecover(n int) {
 	}
 }
 
+// G2: scalar multiples of the generator, sums, and AggregatePubkeys of GeneratePubkey(k_i)
+func (g *gen) genG2(n int) {
+	pt := func() string {
+		if g.r.Chance(1, 8) {
+			return "00"
+		}
+		return hx.Hex(new(bn.G2).ScalarBaseMult(g.scalar()).Marshal())
+	}
+	for i := 0; i < n; i++ {
+		switch g.r.Intn(4) {
+		case 0:
+			g.emit("g2mul " + pt() + " " + natTok(g.scalar()))
+		case 1:
+			p := pt()
+			q := pt()
+			switch g.r.Intn(4) {
+			case 0:
+				q = p
+			case 1:
+				if pp := g2Of(p); pp != nil {
+					q = hx.Hex(new(bn.G2).Neg(pp).Marshal())
+				}
+			}
+			g.emit("g2add " + p + " " + q)
+		default:
+			ns := g.r.Pick(0, 1, 2, 3, 5, 10)
+			cs := make([]*big.Int, ns)
+			for j := range cs {
+				cs[j] = g.scalar()
+			}
+			g.emit(strings.TrimSpace("aggpk " + g2BaseTok + " " + toks(cs)))
+		}
+	}
+}
+
 // arrival sequences for GroupSignGenerator: honest shares, repeated senders, late arrivals
 func (g *gen) genSignGen(n int) {
 	for i := 0; i < n; i++ {
@@ -994,7 +1094,7 @@ func (g *gen) dkgLineIds(n int, cl string, arrivals func(k int) []int, idsOut *[
 		// Go code draws (the known finding), so only the deterministic case m = k is compared
 		arr = arr[:d.k]
 	}
-	w := []string{"dkg", hx.Hex(msg), hx.Hex(gh), hx.Hex(hashPoint(msg)), strconv.Itoa(d.k), strconv.Itoa(n), strconv.Itoa(len(arr)), g.jsFor(len(arr), d.k)}
+	w := []string{"dkg", hx.Hex(msg), hx.Hex(gh), hx.Hex(hashPoint(msg)), g2BaseTok, strconv.Itoa(d.k), strconv.Itoa(n), strconv.Itoa(len(arr)), g.jsFor(len(arr), d.k)}
 	for _, s := range seeds {
 		w = append(w, hx.Hex(s))
 	}
@@ -1116,10 +1216,10 @@ func search(r *hx.Rng, thorough bool, hintLines []string) searchOut {
 		// classify by the ids actually on the line (several generator classes can produce
 		// two ids congruent modulo the group order, e.g. 0 and r)
 		keySuffix := ""
-		if w := strings.Fields(line); len(w) > 8 {
-			if n, ok := tokDec(w[5]); ok && len(w) >= 8+2*n {
+		if w := strings.Fields(line); len(w) > 9 {
+			if n, ok := tokDec(w[6]); ok && len(w) >= 9+2*n {
 				var ids []*big.Int
-				for _, t := range w[8+n : 8+2*n] {
+				for _, t := range w[9+n : 9+2*n] {
 					if x, ok := tokNat(t); ok {
 						ids = append(ids, x)
 					}
@@ -1225,7 +1325,7 @@ func search(r *hx.Rng, thorough bool, hintLines []string) searchOut {
 			}
 			w := strings.Fields(base0)
 			// replace arrival part
-			m0, _ := strconv.Atoi(w[6])
+			m0, _ := strconv.Atoi(w[7])
 			w = w[:len(w)-m0]
 			for rep := 0; rep < 2; rep++ {
 				arr := append([]int{}, sel...)
@@ -1235,8 +1335,8 @@ func search(r *hx.Rng, thorough bool, hintLines []string) searchOut {
 					}
 				}
 				ww := append([]string{}, w...)
-				ww[6] = strconv.Itoa(len(arr))
-				ww[7] = g.jsFor(len(arr), k)
+				ww[7] = strconv.Itoa(len(arr))
+				ww[8] = g.jsFor(len(arr), k)
 				for _, a := range arr {
 					ww = append(ww, strconv.Itoa(a))
 				}
@@ -1350,13 +1450,13 @@ func main() {
 			panic(errS)
 		}
 		msg, _ := hx.UnHex(a["msg"])
-		w := []string{"dkg", hx.Hex(msg), hx.Hex(gh), hx.Hex(hashPoint(msg)), strconv.Itoa(d.k), strconv.Itoa(n), strconv.Itoa(len(arr)), "-"}
+		w := []string{"dkg", hx.Hex(msg), hx.Hex(gh), hx.Hex(hashPoint(msg)), g2BaseTok, strconv.Itoa(d.k), strconv.Itoa(n), strconv.Itoa(len(arr)), "-"}
 		if len(arr) > d.k {
 			js := make([]string, d.k)
 			for i := range js {
 				js[i] = "0"
 			}
-			w[7] = strings.Join(js, ",")
+			w[8] = strings.Join(js, ",")
 		}
 		for _, sd := range seeds {
 			w = append(w, hx.Hex(sd))
@@ -1406,6 +1506,7 @@ func main() {
 	g.genG1(60 * scale)
 	g.genRecover(40 * scale)
 	g.genSignGen(30 * scale)
+	g.genG2(12 * scale)
 	min, max := model.Param.GroupMemberMin, model.Param.GroupMemberMax
 	if thorough {
 		var sizes []int
